@@ -50,8 +50,22 @@ pub const STRS: &[&str] = &["\"\"", "\"a\"", "\"a.png\"", "\"script0\"", "\"æ—¥æ
 pub const IDENTS: &[&str] = &["x", "i", "foo", "script0", "script1", "sprite0", "Sub0", "Sub1", "timeline0", "main", "object0", "ins_0", "ins_1", "ins_23", "ins_65535", "ins_99999", "REG[10000]", "REG[-10001]", "REG[1]", "$REG[10000]", "%REG[10004]", "$x", "%x", "I0", "F0", "int", "float", "var", "void", "const", "inline", "sin", "_S", "_f", "offsetof", "timeof", "entry", "meta", "script", "default", "path", "has_data", "rect", "strip"];
 pub const OPS: &[&str] = &["+", "-", "*", "/", "%", "==", "!=", "<", "<=", ">", ">=", "|", "^", "&", "||", "&&", "<<", ">>", ">>>", "=", "+=", "-=", "*=", "/=", "%=", "|=", "^=", "&=", "<<=", ">>=", ">>>=", "?", ":", ",", ";", "(", ")", "{", "}", "[", "]", "!", "~", "++", "--", "@", "$", "."];
 
+/// Whole statements / items inserted at a statement boundary (after a `;`, `{` or `}`): constructs that are valid somewhere but
+/// usually not where they land, so that resolution, type checking and lowering see them in every kind of script.
+pub const STMTS: &[&str] = &[
+    "Sub0();", "Sub1(1, 2.0, 3.0);", "Sub0(1);", "int r = Sub0();", "@Sub0();", "Sub0() async;", "timeline0();", "script0();", "main();",
+    "void inner() { }\ninner();", "void inner(int a) { ins_1(a); }\ninner(3);", "inline void inl() { }\ninl();", "const int cf() { return 1; }\nint q = cf();", "int fwd();", "void inner2() { void inner3() { } inner3(); }",
+    "return;", "return 1;", "break;", "goto nowhere;", "goto end @ 5;", "end:", "if (1) break;", "times(3) { break; }", "loop { }", "do { } while (0);",
+    "int x; int x;", "int y = y;", "float z = 1;", "const int K = 1 / 0;", "const int K2 = K2;", "var v;", "x = 1;", "$F0 = 1;", "REG[100] = 1;", "$REG[-10001] = %REG[-10005];", "$REG[10000] = $REG[10000] + $REG[10001] * ($REG[10002] - 1);",
+    "interrupt[1]:", "interrupt[-1]:", "+10:", "-5:", "2147483647:", "+2147483647:", "{\"E\"}: Sub0();", "{\"EN\"}: ins_1();", "{\"*-E\"}: { ins_1(); }", "ins_1(1:2:3:4);", "ins_1((1:2):3);",
+    "ins_65535();", "ins_65536();", "ins_0(@blob=\"00\");", "ins_1(@mask=1, @blob=\"\");", "ins_1(@arg0=5);", "ins_1(@pop=1);", "ins_1(@nargs=2);", "ins_1(@blob=\"00000000\", 1);", "ins_1(offsetof(end), timeof(end));",
+    "ins_1(sprite0);", "ins_1(script0);", "ins_1(\"a\");", "ins_1(1.5);", "ins_1(x ? 1 : 2);", "ins_1(-x);", "ins_1(sin(1.0));", "ins_1(_S(1.5));", "ins_1(_f(1));", "ins_1($x);", "ins_1(%x);",
+    "script extra { }", "script 5 extra5 { }", "entry { }", "meta { }", "#pragma mapfile \"nonexistent\"", "#pragma image_source \"nonexistent\"",
+];
+
 pub fn gen_text_mutation(t: &mut Tape) -> Value {
     let at = t.below(65536);
+    if t.chance(1, 8) { return json!({"op": "stmt_ins", "at": at, "text": *t.pick(STMTS)}); }
     if t.chance(1, 2) {
         // class-preserving replacement: the text usually still parses, so that later passes are reached
         return json!({"op": "tok_rep_same", "at": at, "num": *t.pick(NUMS), "str": *t.pick(STRS), "ident": *t.pick(IDENTS), "punct": *t.pick(OPS)});
@@ -77,6 +91,14 @@ pub fn apply_text_mutation(text: &mut Vec<u8>, m: &Value) {
     let at = m["at"].as_u64().unwrap_or(0);
     let op = m["op"].as_str().unwrap_or("");
     let ins = m["text"].as_str().unwrap_or("").as_bytes().to_vec();
+    if op == "stmt_ins" {
+        // statement boundaries: just after a `;`, `{` or `}` token
+        let bounds: Vec<usize> = std::iter::once(0).chain(toks.iter().filter(|(a, b)| b - a == 1 && matches!(text[*a], b';' | b'{' | b'}')).map(|(_, b)| *b)).collect();
+        let p = bounds[frac(at, bounds.len())];
+        let mut v = vec![b'\n']; v.extend(ins); v.push(b'\n');
+        splice(text, p, p, &v);
+        return;
+    }
     if op.starts_with("tok") || op == "nest" {
         if toks.is_empty() { if op == "tok_ins" { text.extend_from_slice(&ins); } return; }
         let i = frac(at, toks.len());
